@@ -20,6 +20,7 @@ CONSTANTS MaxPlace,      \* max number of modifier placements
           BinChoices,    \* set of bin counts
           NPts,          \* number of parameter points per (spec, setting)
           Settings,      \* set of setting ids, see SettingOf
+          Overrides,     \* set of measurement-override variants, see OverridePars
           EmitCases,     \* TRUE: print cases for the replay harness
           EmitMod, EmitRes \* print only specifications whose structural hash = EmitRes mod EmitMod
 
@@ -70,6 +71,15 @@ ModRec(m, c, s, nbin) ==
 \* listing in canonical order (the harness permutes the lists: C12/C15 order independence)
 ModSeqOf(M, c, s, nbin) == LET ord == SortSet({MOrd(m) : m \in M})
                            IN [i \in 1..Len(ord) |-> ModRec(CHOOSE m \in M : MOrd(m) = ord[i], c, s, nbin)]
+\* measurement-level parameter settings (C12: they must appear verbatim in suggestions and constraint terms)
+NoCfg(n) == [name |-> n, inits |-> <<>>, bounds |-> <<>>, fixed |-> <<>>, auxdata |-> <<>>, sigmas |-> <<>>, factors |-> <<>>]
+OverridePars(o, has(_)) ==      \* has(n): parameter name n occurs in the specification
+  CASE o = 0 -> <<>>
+    [] o = 1 -> (IF has(4) THEN <<[NoCfg(4) EXCEPT !.inits = <<R(2)>>, !.bounds = << <<RZero, R(5)>> >>]>> ELSE <<>>)
+             \o (IF has(1) THEN <<[NoCfg(1) EXCEPT !.inits = <<RN(1, 2)>>, !.fixed = <<TRUE>>]>> ELSE <<>>)
+    [] o = 2 -> (IF has(1) THEN <<[NoCfg(1) EXCEPT !.auxdata = <<RN(1, 2)>>]>> ELSE <<>>)
+             \o (IF has(7) THEN <<[NoCfg(7) EXCEPT !.bounds = << <<R(-3), R(3)>> >>, !.inits = <<RN(-1, 2)>>]>> ELSE <<>>)
+             \o (IF has(5) THEN <<[NoCfg(5) EXCEPT !.fixed = <<TRUE>>, !.inits = <<RN(3, 2)>>]>> ELSE <<>>)
 MkSpec(nbv, pres, md) ==
   LET cs == SortSet({c \in 1..2 : nbv[c] > 0})
       AnyLumi == \E cell \in pres : "lumi" \in md[cell]
@@ -85,6 +95,11 @@ MkSpec(nbv, pres, md) ==
                                   factors |-> <<>>]>>
                ELSE <<>>,
       poi |-> IF HasMu THEN 4 ELSE 0]
+
+MkSpecO(nbv, pres, md, o) ==
+  LET base == MkSpec(nbv, pres, md)
+      has(n) == \E cell \in pres : \E m \in md[cell] : MName(m, cell[1], cell[2]) = n
+  IN [base EXCEPT !.pars = @ \o OverridePars(o, has)]
 
 -----------------------------------------------------------------------------
 (* settings: interpolation codes x clipping *)
@@ -160,10 +175,11 @@ Relevant(k) ==
   /\ (k \in {2, 3} => HasType(HISTOSYS) \/ HasType(NORMSYS))
   /\ (k = 3 => HasType(HISTOSYS))
 
-Build(k) ==
+Build(k, o) ==
   /\ phase = "edit" /\ nplaced >= 1
-  /\ Relevant(k)
-  /\ LET sp == MkSpec(nb, present, mods) IN
+  /\ Relevant(k) /\ o \in Overrides
+  /\ LET sp == MkSpecO(nb, present, mods, o) IN
+        /\ (o # 0 => Len(sp.pars) > Len(MkSpec(nb, present, mods).pars))     \* an override variant only where it says something
         /\ spec' = sp /\ cfg' = MkCfg(sp)
   /\ set' = k /\ phase' = "built" /\ pt' = 0
   /\ UNCHANGED <<nb, present, mods, last, nplaced, out>>
@@ -178,7 +194,7 @@ Eval(k) ==
   /\ UNCHANGED <<nb, present, mods, last, nplaced, spec, cfg, set>>
 
 Next == \/ \E c \in 1..MaxChan, s \in 1..2, m \in MIds : AddMod(c, s, m)
-        \/ \E k \in Settings : Build(k)
+        \/ \E k \in Settings, o \in Overrides : Build(k, o)
         \/ \E k \in 0..(NPts - 1) : Eval(k)
 Spec == Init /\ [][Next]_vars
 
